@@ -122,12 +122,13 @@ func init() {
 		ID:         "C34",
 		Level:      "other",
 		Technique:  "writer/reader field-set agreement per descriptor-proto message between protodesc's To*DescriptorProto functions, its NewFile pipeline and the descriptor schema, with a reviewed exception table (static)",
-		Explain:    "Decides a structural necessary condition of lossless conversion between descriptor protos and descriptors: for each of the eleven descriptor-proto message types, the set of fields written by the To*DescriptorProto functions equals the set of fields read by protodesc's NewFile pipeline (initialisation, resolution, validation), and every field of the generated descriptorpb struct is written — a field dropped on either side makes the round trip lossy for every schema that uses it. Exceptions are listed with reasons. The resolved features that both descriptor builders derive from the protos (field presence, packedness, …) are defined by the same FeatureSet values and option overrides in both (R-FEATURE-FIELDS), so a descriptor rebuilt from its proto has the features of the generated one.",
+		Explain:    "Decides a structural necessary condition of lossless conversion between descriptor protos and descriptors: for each of the eleven descriptor-proto message types, the set of fields written by the To*DescriptorProto functions equals the set of fields read by protodesc's NewFile pipeline (initialisation, resolution, validation), and every field of the generated descriptorpb struct is written — a field dropped on either side makes the round trip lossy for every schema that uses it. Exceptions are listed with reasons. The resolved features that both descriptor builders derive from the protos (field presence, packedness, …) are defined by the same FeatureSet values and option overrides in both (R-FEATURE-FIELDS), so a descriptor rebuilt from its proto has the features of the generated one. The presence-carrying optional scalars of FieldDescriptorProto (proto3_optional, json_name, default_value, oneof_index) are written each under exactly the accessor that NewFile feeds from that field (R-DESC-WRITE-GUARD).",
 		NotCovered: "value-level equality of the round trip (names, defaults, options content, features) and the documented normalisations.",
 		Quick:      all("./reflect/protodesc", "./internal/filedesc", "./types/descriptorpb"),
 		Thorough:   all("./..."),
 		Run: func(c *Ctx) {
 			c.ruleDescFields("R-DESC-FIELDS", "C34")
+			c.ruleDescWriteGuard("R-DESC-WRITE-GUARD")
 			c.ruleFeatureFields("R-FEATURE-FIELDS")
 			c.ruleOptionOverride("R-FEATURE-FIELDS")
 		},
